@@ -21,7 +21,11 @@ ASSUMPTIONS = [
     "port order is compared too, but an order-only difference is reported as a correspondence disagreement, not a violation (the property does not fix the order)",
 ]
 TRUSTED = []
-LEAF_KINDS = ["input", "output", "inout", "port", "role_hd", "role_dh", "plain"]
+LEAF_KINDS = ["input", "output", "inout", "port", "role_hd", "role_dh", "plain",
+              # role-carrying leaves that name one end only
+              "role_h_", "role_d_", "role__h", "role__d"]
+# how a flip parity is written down: the constructor flag, flipped(), or several of them on top of each other
+VIAS = {False: ["ctor", "ctor+fn", "fn+fn"], True: ["ctor", "fn", "ctor+fn+fn"]}
 
 
 class _R(Enum):
@@ -45,8 +49,26 @@ def leaf_json(name, kind, w):
         d["src"], d["dest"] = "HOST", "DEVICE"
     if kind == "role_dh":
         d["src"], d["dest"] = "DEVICE", "HOST"
+    if kind in ("role_h_", "role_d_"):
+        d["src"] = "HOST" if kind == "role_h_" else "DEVICE"
+    if kind in ("role__h", "role__d"):
+        d["dest"] = "HOST" if kind == "role__h" else "DEVICE"
     d["kind"] = kind
     return d
+
+
+def mk_inst(B, flip, via, **kw):
+    """An instance of `B` whose flip parity is `flip`, written the way `via` says."""
+    f = hbundle.flipped
+    if via == "fn" and flip:
+        return f(B(**kw))
+    if via == "ctor+fn" and not flip:
+        return f(B(flipped=True, **kw))
+    if via == "fn+fn" and not flip:
+        return f(f(B(**kw)))
+    if via == "ctor+fn+fn" and flip:
+        return f(f(B(flipped=True, **kw)))
+    return B(flipped=flip, **kw)
 
 
 def build_bundle(tree, name, counter, irole=None):
@@ -69,10 +91,7 @@ def build_bundle(tree, name, counter, irole=None):
     for sub in tree["subs"]:
         sb = build_bundle(sub["of"], name + "_" + sub["n"], counter, irole)
         # a sub-bundle instance may itself be declared `port=True`: port-ness is the top-level instance's alone
-        if sub["flip"] and sub.get("via") == "fn":
-            inst = hbundle.flipped(sb(role=irole[sub["role"]], port=bool(sub.get("port"))))
-        else:
-            inst = sb(role=irole[sub["role"]], flipped=sub["flip"], port=bool(sub.get("port")))
+        inst = mk_inst(sb, sub["flip"], sub.get("via"), role=irole[sub["role"]], port=bool(sub.get("port")))
         setattr(b, sub["n"], inst)
     return b
 
@@ -83,10 +102,7 @@ DIRS = {0: "input", 1: "output", 2: "inout", 3: "none"}
 def build_inner(case, B):
     inner = h.Module(name="Inner")
     irole = IROLE[case.get("role_objs", "same")]
-    if case["flip"] and case.get("via") == "fn":
-        inner.p = hbundle.flipped(B(port=True, role=irole[case["role"]]))
-    else:
-        inner.p = B(port=True, role=irole[case["role"]], flipped=case["flip"])
+    inner.p = mk_inst(B, case["flip"], case.get("via"), port=True, role=irole[case["role"]])
     inner.q = B()
     return inner
 
@@ -247,8 +263,9 @@ def rand_tree(rng, depth, fan):
     if depth > 0:
         nsub = rng.randint(0 if nsig else 1, fan)
         for i in range(nsub):
-            subs.append({"n": names[nsig + i] if nsig + i < len(names) else f"s{i}", "flip": rng.random() < 0.5,
-                         "via": rng.choice(["ctor", "fn"]), "role": rng.choice([None, "HOST", "DEVICE"]),
+            fl = rng.random() < 0.5
+            subs.append({"n": names[nsig + i] if nsig + i < len(names) else f"s{i}", "flip": fl,
+                         "via": rng.choice(VIAS[fl]), "role": rng.choice([None, "HOST", "DEVICE"]),
                          "port": rng.random() < 0.3, "of": rand_tree(rng, depth - 1, fan)})
     return {"sigs": sigs, "subs": subs}
 
@@ -260,17 +277,18 @@ def exhaustive_small():
             for flips in itertools.product([False, True], repeat=depth + 1):
                 for roles in itertools.product([None, "HOST", "DEVICE"], repeat=depth + 1):
                     t = {"sigs": [leaf_json("x", kind, 1)], "subs": []}
+                    k = len(kind) + depth + sum(flips) + sum(r is not None for r in roles)  # walks through the ways of writing a flip
                     for d in range(depth):
-                        t = {"sigs": [], "subs": [{"n": f"l{d}", "flip": flips[d + 1], "via": "ctor", "role": roles[d + 1], "of": t,
+                        t = {"sigs": [], "subs": [{"n": f"l{d}", "flip": flips[d + 1], "via": VIAS[flips[d + 1]][(k + d) % 3], "role": roles[d + 1], "of": t,
                                                    "port": (sum(flips) + d) % 2 == 1}]}
-                    yield {"tree": t, "flip": flips[0], "via": "fn" if depth == 1 else "ctor", "role": roles[0],
+                    yield {"tree": t, "flip": flips[0], "via": VIAS[flips[0]][(k + depth + 1) % 3], "role": roles[0],
                            "role_objs": ("same", "again", "alone")[(len(kind) + depth + sum(flips)) % 3]}
 
 
 def run(ctx):
     rng = ctx.rng
     ctx.rep.extra["rule"] = (
-        "exhaustive single-leaf chains (depth 0-2 x 7 leaf kinds x all flip patterns x all role assignments) + random trees "
+        "exhaustive single-leaf chains (depth 0-2 x 11 leaf kinds, incl. role leaves naming one end only, x all flip patterns, each flip written as constructor flag / flipped() / several on top of each other, x all role assignments) + random trees "
         "(depth<=3, fan-out<=3); a tree is non-trivial if it has a sub-bundle or a directed/role leaf; distinct = distinct JSON"
     )
     cases = list(exhaustive_small())
@@ -278,8 +296,9 @@ def run(ctx):
     n = 250 if ctx.quick else 5000
     for k in range(n):
         cases.append({"anon_seed": k, "tree": rand_tree(rng, rng.choice([0, 1, 1, 2, 2, 3]), rng.choice([1, 2, 3])),
-                      "flip": rng.random() < 0.5, "via": rng.choice(["ctor", "fn"]), "role": rng.choice([None, "HOST", "DEVICE"]),
+                      "flip": rng.random() < 0.5, "role": rng.choice([None, "HOST", "DEVICE"]),
                       "role_objs": rng.choice(["same", "same", "again", "alone"])})
+        cases[-1]["via"] = rng.choice(VIAS[cases[-1]["flip"]])
     cases = [c for c in cases if leafcount(c["tree"]) > 0]
     S.run(ctx, cases)
 
